@@ -108,6 +108,22 @@ def jobs(tier):
     J.append(L0('validate_int_range', ['C03', 'C04', 'C08']))
     J.append(L0('parse_buffer_hexadecimal', ['C03', 'C05', 'C08'], loop=True, defines=['MAX_CAP=256'], jid='L0.parse_buffer_hexadecimal.cap256'))
     J.append(L0('parse_buffer_string', ['C03', 'C05', 'C08'], loop=True))
+    J.append(L0('print_nstring_to_buf', ['C03', 'C19'], defines=['MAX_CAP=64']))
+    for k, f in enumerate(['%d', '%u', '%02X', '0x%02X', '0x%04X', '0x%08X']):
+        J.append(L0('print_format_num', ['C03', 'C07', 'C08', 'C19'], defines=['MAX_CAP=64', 'FMT_STR="%s"' % f], cbmc_flags=['--unwind', '14', '--unwinding-assertions'], jid='L0.print_format_num.fmt%d' % k))
+    for fn in ('format_int_decimal', 'format_uint_decimal', 'format_num_hexadecimal'):
+        J.append(L0(fn, ['C03', 'C07'], defines=['MAX_CAP=64', 'PF_LIGHT'], replace=['print_format_num'], cbmc_flags=['--unwind', '14', '--unwinding-assertions', '--object-bits', '10']))
+    # (loop-contract proofs of format_buffer_hexadecimal / format_buffer_string ran out of memory in CBMC 6.11: see DESIGN.md; bounded stand-ins below)
+    for name, t, numeric in (('int', 'CAT_VAR_INT_DEC', True), ('uint', 'CAT_VAR_UINT_DEC', True), ('hex', 'CAT_VAR_NUM_HEX', True), ('bufhex', 'CAT_VAR_BUF_HEX', False), ('string', 'CAT_VAR_BUF_STRING', False)):
+        for wo in (False, True):
+            ds = 4
+            cap = 24
+            J.append({'id': 'L2.%s_%s' % ('writeonly' if wo else 'roundtrip', name), 'props': ['C08', 'C03'] if wo else ['C07', 'C03'], 'harness': 'l2_roundtrip.c', 'dfcc': False,
+                      'function': 'format_*/parse_* (%s)' % name, 'replace': [], 'loop_contracts': False,
+                      'defines': ['RT_TYPE=' + t, 'RT_DS=%d' % ds, 'RT_CAP=%d' % cap] + (['RT_WRITE_ONLY'] if wo else []), 'expect': [],
+                      'label': 'unbounded' if numeric else 'bounded', 'timeout': 900, 'replay': None,
+                      'cbmc_flags': ['--unwind', str(cap + 2), '--unwinding-assertions'], 'tiers': ['quick', 'thorough'],
+                      'shape': ('all bit patterns of all three widths; text loops bounded by the text width, unwinding assertions on (complete)' if numeric else 'data_size <= %d (BOUNDED stand-in), all byte contents' % ds) + '; capacity %d' % cap})
     for st in AT_STATES:
         J.append(L1('at', st, 'sh16'))
     for st in UN_STATES:
